@@ -46,6 +46,7 @@ type AcctState struct {
 	Quota    int64  `json:"quota"`
 	HasQuota bool   `json:"has_quota"`
 	Reserved int64  `json:"reserved"`
+	UnitCost uint32 `json:"unit_cost"` // the unit cost the CHF holds for this rating group
 }
 
 // OpResult is what the harness observed for one op.
@@ -86,6 +87,7 @@ type History struct {
 	Scenario        *Scenario
 	Ops             []*OpResult // in completion order of each task, tasks concatenated; sequential runs: global order
 	Epilogue        []*OpResult
+	Callbacks       []*OpResult // requests sent by the simulated SMF while a notification was outstanding
 	Final           []AcctState
 	Msgs            []*simnet.Msg
 	Journal         []rt.Write
@@ -167,6 +169,42 @@ func Run(sc *Scenario) *History {
 		}
 	}
 	cfg := sc.Cfg
+	if cfg.SinkCallback != nil {
+		var cbMu sync.Mutex
+		nCb := 0
+		w.sinkMu.Lock()
+		w.OnNotify = func(cancelled <-chan struct{}) {
+			cbMu.Lock()
+			nCb++
+			id := nCb
+			cbMu.Unlock()
+			op := *cfg.SinkCallback
+			op.ID = 900000 + id
+			op.Role = "callback"
+			fin := make(chan *OpResult, 1)
+			go func() {
+				t := rt.NewTask(900000+id, "smf-callback")
+				t.Adopt()
+				defer rt.Release()
+				fin <- r.execOp(t, &op)
+			}()
+			select {
+			case res := <-fin:
+				cbMu.Lock()
+				h.Callbacks = append(h.Callbacks, res)
+				cbMu.Unlock()
+			case <-cancelled:
+				// the CHF gave up on the notification; the request is still in flight
+				go func() {
+					res := <-fin
+					cbMu.Lock()
+					h.Callbacks = append(h.Callbacks, res)
+					cbMu.Unlock()
+				}()
+			}
+		}
+		w.sinkMu.Unlock()
+	}
 	rt.Begin(rt.Config{Seed: sc.Seed, YieldPermille: cfg.YieldPermille, YieldMaxNs: cfg.YieldMaxNs,
 		PollMinNs: cfg.PollMinNs, PollMaxNs: cfg.PollMaxNs})
 	h.GoBase = runtime.NumGoroutine()
@@ -273,7 +311,7 @@ func (r *runner) acctStates() []AcctState {
 	var out []AcctState
 	for _, a := range r.sc.Accounts {
 		q, ok := Quota(a.Supi, a.RG)
-		out = append(out, AcctState{Supi: a.Supi, RG: a.RG, Quota: q, HasQuota: ok, Reserved: Reserved(a.Supi, a.RG)})
+		out = append(out, AcctState{Supi: a.Supi, RG: a.RG, Quota: q, HasQuota: ok, Reserved: Reserved(a.Supi, a.RG), UnitCost: UnitCostOf(a.Supi, a.RG)})
 	}
 	return out
 }
@@ -482,6 +520,12 @@ func (r *runner) execOp(t *rt.Task, op *Op) *OpResult {
 	case "sleep":
 		res.StartNs = rt.Now()
 		time.Sleep(time.Duration(op.SleepNs))
+		res.EndNs, res.Done = rt.Now(), true
+		return res
+	case "dbcost":
+		// the operator changes the tariff of (subscriber, rating group) in the database
+		res.StartNs = rt.Now()
+		SetUnitCost(op.Supi, op.RG, op.Consumer)
 		res.EndNs, res.Done = rt.Now(), true
 		return res
 	case "dbset":
